@@ -134,7 +134,7 @@ json.dump(res, open(d + '/out.json', 'w'))
 
 @st.composite
 def xproc_plan_st(draw, tier):
-    n = 8 if tier == "quick" else 25
+    n = 8 if tier == "quick" else 10
     return {"plans": [draw(plan_st(tier, max_prefix=4, max_cont=5)) for _ in range(n)],
             "proto": draw(st.sampled_from([2, 3, 4, 5])), "hashseed": draw(st.sampled_from(["0", "1", "random"]))}
 
